@@ -422,6 +422,98 @@ def option_lattice(rng, n):
     return out
 
 
+# ---- input heavy atoms that arrive under ALIAS names ---------------------------------------
+
+
+def input_text(pdb):
+    """tests/data file, or a built structure: '@pep:ALA-ASN-...' (all heavy atoms, OXT) / '@dna:A-T-G-C' / '@rna:A-U-G-C'."""
+    if not pdb.startswith("@"):
+        return (core.REPO / "tests" / "data" / pdb).read_text()
+    from harness import builder as B
+
+    kind, seq = pdb[1:].split(":")
+    seq = seq.split("-")
+    atoms = B.build_peptide(seq) if kind == "pep" else B.build_strand(seq, rna=(kind == "rna"))
+    return B.to_pdb(atoms)
+
+
+def heavy_alias_table():
+    """{template name: {canonical atom name: [heavy aliases]}} from every <altname> the definition loader of the tree
+    under test holds (AA.xml, NA.xml, PATCHES.xml as applied to the templates).  Hydrogen aliases are not this property."""
+    from common import load_definition
+
+    definition = load_definition()
+    out = {}
+    for tname, t in definition.map.items():
+        for alias, canon in getattr(t, "altnames", {}).items():
+            if alias[0] == "H" or (alias[0].isdigit() and len(alias) > 1 and alias[1] == "H") or canon.startswith("H"):
+                continue
+            out.setdefault(tname, {}).setdefault(canon, []).append(alias)
+    return out
+
+
+def alias_rewrite(text, k, table):
+    """Rename heavy atoms to an alias the data files list for them, per residue: the alias set of the template the
+    residue will get (C<res> when it carries OXT, N<res> for the first residue of a chain, else <res>; nucleic
+    acids by residue name), alias number k.  Returns (text, [(residue, canonical, alias)])."""
+    lines = text.splitlines()
+    groups = {}
+    order = []
+    for ln in lines:
+        if ln.startswith(("ATOM  ", "HETATM")):
+            key = ln[17:27]
+            if key not in groups:
+                groups[key] = set()
+                order.append(key)
+            groups[key].add(ln[12:16].strip())
+    first_of_chain = {}
+    for key in order:
+        first_of_chain.setdefault(key[4], key)
+    chosen = {}
+    used = []
+    for key in order:
+        rn = key[:3].strip()
+        cands = [("C" + rn) if "OXT" in groups[key] else None, ("N" + rn) if first_of_chain[key[4]] == key else None, rn, "D" + rn if len(rn) == 1 else None, "R" + rn if len(rn) == 1 else None]
+        tmpl = next((c for c in cands if c and c in table), None)
+        if tmpl is None:
+            continue
+        for canon, als in table[tmpl].items():
+            if canon in groups[key]:
+                al = sorted(als)[k % len(als)]
+                if len(al) <= 4 and al not in groups[key]:
+                    chosen[(key, canon)] = al
+                    used.append((key.strip(), canon, al))
+    out = []
+    for ln in lines:
+        if ln.startswith(("ATOM  ", "HETATM")) and (ln[17:27], ln[12:16].strip()) in chosen:
+            al = chosen[(ln[17:27], ln[12:16].strip())]
+            name = al.ljust(4) if len(al) == 4 else (" " + al).ljust(4)
+            ln = ln[:12] + name + ln[16:]
+        out.append(ln)
+    return "\n".join(out) + "\n", used
+
+
+ALIAS_STRUCTURES = ["@pep:ALA-ASN-LYS-HIS-GLU", "@pep:GLY-CYS-ASP-TYR-ARG-SER", "@dna:A-T-G-C", "@rna:A-U-G-C", "1QBS.pdb"]
+
+
+def alias_lattice(rng, n):
+    """No-move runs on alias-named inputs: (pdb, args, transform 'alias<k>'). Peptides also with --neutraln/--neutralc."""
+    out = []
+    for i in range(n):
+        pdb = ALIAS_STRUCTURES[i % len(ALIAS_STRUCTURES)] if i % 7 != 6 else "1QBS.pdb"
+        mode = list(NOMOVE_MODES[i % len(NOMOVE_MODES)])
+        ff = "PARSE" if i % 2 == 0 else rng.choice(["AMBER", "CHARMM", "PARSE", "SWANSON"])
+        extra = [f"--ff={ff}", *mode]
+        if ff == "PARSE" and not pdb.startswith(("@dna", "@rna")):
+            extra += [["--neutralc"], ["--neutraln"], ["--neutraln", "--neutralc"], []][(i // 2) % 4]
+        if rng.random() < 0.3:
+            extra.append(f"--ffout={rng.choice(['AMBER', 'CHARMM'])}")
+        if rng.random() < 0.3:
+            extra.append("--keep-chain")
+        out.append((pdb, extra, f"alias{i // len(ALIAS_STRUCTURES)}"))
+    return out
+
+
 def transform_pdb(text, transform):
     """The same structure written differently: 'alphabetical' = the ATOM records of every residue sorted
     by atom name (CD before CG, CE1 before ND1, ring atoms before CG); 'del-interior' = an interior
@@ -435,6 +527,8 @@ def transform_pdb(text, transform):
         return add_clash_waters(text, int(transform[5:] or 0))
     if transform.startswith("rebuild"):
         return rebuild_clash(text, int(transform[7:] or 0))
+    if transform.startswith("alias"):
+        return alias_rewrite(text, int(transform[5:] or 0), heavy_alias_table())[0]
     lines = text.splitlines()
     out = []
     i = 0
@@ -480,9 +574,10 @@ def real_run(ctx, pdb, extra, transform=None, propka=None):
     d = ctx.scratch_dir()
     out = d / "g.pqr"
     path = core.REPO / "tests" / "data" / pdb
-    if transform:
-        path = d / f"{transform}_{pdb}"
-        path.write_text(transform_pdb((core.REPO / "tests" / "data" / pdb).read_text(), transform))
+    if transform or pdb.startswith("@"):
+        path = d / ("in_" + "".join(c if c.isalnum() else "_" for c in f"{transform}_{pdb}") + ".pdb")
+        text = input_text(pdb)
+        path.write_text(transform_pdb(text, transform) if transform else text)
     args = pmain.build_main_parser().parse_args([*extra, str(path), str(out)])
     calls = []
     writes = {}
@@ -585,6 +680,23 @@ def real_run(ctx, pdb, extra, transform=None, propka=None):
 BACKBONE_CAP = {"N", "CA", "C", "O", "OXT"}
 
 
+_CANON = {}
+
+
+def canon_of_alias():
+    """alias -> canonical heavy-atom name (union over all templates)."""
+    if not _CANON:
+        try:
+            for t in heavy_alias_table().values():
+                for canon, als in t.items():
+                    for al in als:
+                        _CANON.setdefault(al, canon)
+        except Exception:  # noqa
+            pass
+        _CANON.setdefault("", "")
+    return _CANON
+
+
 def mode_of(extra):
     return " ".join(x for x in extra if x in ("--nodebump", "--noopt", "--clean", "--assign-only") or x.startswith("--titration-state-method"))
 
@@ -607,9 +719,23 @@ def geometry_oracle(ctx, pdb, extra, noop, run, definition):
             final[k] = (a.x, a.y, a.z)
             by_res.setdefault(k[:3], (res, {}))[1][k[3]] = k
     label = f"{pdb} {' '.join(extra)}"
+    res_atoms = {}
+    for res in bio.residues:
+        for a in res.atoms:
+            res_atoms.setdefault((a.chain_id, a.res_seq, a.ins_code), []).append(a)
     for k, p0 in run["initial"].items():
         if k not in final:
-            continue  # deletions are C03's subject
+            # the input OBJECT is gone (deletions as such are C03's subject) - but if the result has an atom under
+            # the same name, or under the canonical name of the alias it was read with, in that residue, that atom
+            # stands for the input atom: it must be where the input atom was
+            cands = {k[3], canon_of_alias().get(k[3], k[3])}
+            sub = next((a for a in res_atoms.get(k[:3], []) if a.name in cands and id(a) not in run["orig_key"]), None)
+            if sub is not None:
+                p1 = (sub.x, sub.y, sub.z)
+                ctx.evaluated(f"{label}:{k}:replaced", True)
+                if p1 != p0:
+                    ctx.fail({"site": "pipeline", "condition": "input-atom-deleted-and-rebuilt-elsewhere", "atom": canon_of_alias().get(k[3], k[3])}, f"{label}: input heavy atom {k} was removed and an atom {sub.name} rebuilt {math.dist(p0, p1):.4f} A away", {"pdb": pdb, "args": extra, "atom": list(k), "propka": run.get("propka")})
+            continue
         p1 = final[k]
         moved = p0 != p1
         ctx.evaluated(f"{label}:{k}", True)
@@ -1567,6 +1693,21 @@ def run(ctx):
     lattice = option_lattice(ctx.rng, 60 if ctx.thorough else 14)
     inputs += [(pdb, extra, True, tr, pk) for pdb, extra, tr, pk in lattice]
     inputs += [("1AJJ.pdb", ["--ff=AMBER"], False, "rebuild0"), ("1AJJ.pdb", ["--ff=PARSE", "--noopt"], False, "rebuild1")]
+    try:
+        table = heavy_alias_table()
+    except Exception as e:  # noqa
+        table = {}
+        ctx.notes.append(f"alias table: {type(e).__name__}: {e}")
+    if not any(table.values()):
+        ctx.broke("generator-broken", "alias table (altnames of the definition templates) is empty", "no heavy-atom <altname> found through the definition loader")
+    else:
+        for pdb, extra, tr in alias_lattice(ctx.rng, 60 if ctx.thorough else 15):
+            used = alias_rewrite(input_text(pdb), int(tr[5:]), table)[1]
+            for _, canon, al in used:
+                ctx.count(f"alias-input:{canon}->{al}")
+            if used:
+                inputs.append((pdb, extra, True, tr, None))
+        inputs += [("@pep:ALA-ASN-LYS-HIS-GLU", ["--ff=PARSE", "--neutralc"], False, "alias0"), ("@dna:A-T-G-C", ["--ff=AMBER"], False, "alias0")]
     for pdb, extra, noop, *tr in inputs:
         transform = tr[0] if tr else None
         propka = tr[1] if len(tr) > 1 else None
